@@ -322,3 +322,13 @@ from sa import dims as _dims  # noqa: E402
 
 RULES.append(Rule("C12.AX", _dims.make_rule("C12", "C12.AX"), floor=1,
                   doc="axis-extent agreement: coordinate components are bounded by the extent of their own axis (E13)"))
+
+from sa import exits as _exits_ms  # noqa: E402
+
+RULES.append(Rule("C12.MS", _exits_ms.make_state_rule("C12", "C12.MS", _exits_ms.SCOPES.get("C12", [])), floor=1,
+                  doc="no hidden state on the anchored path (module level, per object, memoising decorators): results do not depend on the history of the process (E17)"))
+
+from sa import exits as _exits_nw  # noqa: E402
+
+RULES.append(Rule("C12.NW", _exits_nw.make_narrowing_rule("C12", "C12.NW", _exits_nw.SCOPES.get("C12", [])), floor=1,
+                  doc="no new narrowing cast (8/16-bit element types) on the anchored path: coordinates, lengths and indices do not wrap (E18)"))
